@@ -1394,6 +1394,15 @@ func (g *vGen) stepRandom() *vPair {
 			}
 		}
 		return g.update(vUpdateOpts{kind: "update-embed-capinv", target: active, next: g.embedCapInv})
+	case r < 98 && g.rng.Intn(3) == 0: // an update (no embedded key) for a DID that does not exist, signed by an existing DID's key
+		k := g.freshKey()
+		spec := vBasicDoc(k)
+		signer := active.latest()
+		if ks := signer.spec.capInvKeys(); len(ks) > 0 {
+			prevs := []hash.SHA256Hash{signer.ref}
+			return g.emit("update-unknown-did", spec.payload(), vSignSpec{key: ks[0].Key, kid: ks[0].ID, prevs: prevs, clock: g.clockFor(prevs)}, nil)
+		}
+		return g.update(vUpdateOpts{kind: "update", target: active, next: g.randomEdit})
 	case r < 98: // odd key ids
 		return g.update(vUpdateOpts{kind: "update-odd-kid", target: active, next: g.randomEdit, signer: func() (*vKey, string, []hash.SHA256Hash) {
 			k := active.key
